@@ -64,3 +64,15 @@ reg(PropertySpec(
     assumptions=["entries finite in the deductive part (the -inf subset is covered by the bounded stand-in only)", "n >= 2 for the relative error"],
     miss=["rounding inside the libraries' exp/log/sum"],
 ))
+
+reg(PropertySpec(
+    "C04", "Parameter transforms are bijections with exact log-Jacobians",
+    lean=["C04.lean"],
+    native=_lazy("checks.native_misc", "native_C04"),
+    technique="contract-based deductive verification: every element-wise map (logit, sigmoid, unit-interval scaling, LogitTransform, ProbitTransform, PeriodicTransform, AffineTransform forward/inverse and their log-Jacobians) is translated from the ast to Lean on every run; bijection, HasDerivAt = exp(log-Jacobian), inverse log-Jacobian = -forward, wrap range/congruence are Lean/Mathlib theorems; composition order and log-Jacobian summation of CompositeTransform by symbolic execution (z3); bounded native stand-in",
+    trusted_base=["py2lean translation in the scalar element view (diagonal Jacobian: per-coordinate maps act independently, the .sum(-1) of per-coordinate log-derivatives is the log-determinant)",
+                  "three axioms about erf/erfinv (Mathlib has no error function): erf(erfinv y) = y on (-1,1), range of erf, derivative of erf"],
+    assumptions=["inside the clipping margin (eps) the bounded maps are not bijections: theorems are stated strictly inside the bounds with clip = identity (side condition recorded by the extraction)",
+                 "affine: fitted scale non-zero"],
+    miss=["floating-point rounding (bounded stand-in only)"],
+))
